@@ -57,7 +57,7 @@ manifest = dict(
              serves_properties=[p for p in ids if p in CHECKS and CHECKS[p].get("engine") == "units"]),
         dict(name="gcsim", path="/verif/harness/gcsim", kind_free_text="a real VM binding (VerifVM) with a shadow heap; generated multi-threaded mutator programs run real GCs in short processes; oracles at quiescent points and on the binding-boundary/event-log history",
              serves_properties=[p for p in ids if p in CHECKS and CHECKS[p].get("engine") == "gcsim"]),
-        dict(name="miri", path="/verif/harness/mirit", kind_free_text="cargo +nightly miri (UB / data-race interpreter) on the pure-Rust components",
+        dict(name="miri", path="/verif/harness/units", kind_free_text="the same unit monitors under cargo +nightly miri run (--tier miri budgets): undefined-behaviour / data-race interpreter on the pure-Rust components; an extra shard of the thorough tier",
              serves_properties=[p for p in ids if p in CHECKS and CHECKS[p].get("miri")]),
     ],
     checks=checks,
